@@ -53,3 +53,7 @@ type Settings struct {
 	IdSetting int64
 	Owner     string
 }
+
+// two tables declared on one line, each with a foreign key: their constraints
+// are emitted in source order
+type RefA struct { Id int64; IdClient IdClient }; type RefB struct { Id int64; IdAccount IdAccount }
